@@ -271,6 +271,37 @@ func (shortRand) Read(p []byte) (int, error) {
 	return rand.Read(p)
 }
 
+// a transport whose next Write, once armed, takes only the first 20 bytes and then reports an expired write deadline
+// (what a stalled peer and SetWriteDeadline produce): a record is torn on the wire
+type tornConn struct {
+	net.Conn
+	armed int32
+	torn  int32 // writes cut short so far
+	after int32 // transport writes that came after the first torn one
+}
+
+type tornTimeout struct{}
+
+func (tornTimeout) Error() string   { return "verif: write deadline exceeded" }
+func (tornTimeout) Timeout() bool   { return true }
+func (tornTimeout) Temporary() bool { return true }
+
+func (t *tornConn) Write(p []byte) (int, error) {
+	if atomic.CompareAndSwapInt32(&t.armed, 1, 0) && len(p) > 20 {
+		atomic.AddInt32(&t.torn, 1)
+		n, _ := t.Conn.Write(p[:20])
+		return n, tornTimeout{}
+	}
+	if atomic.LoadInt32(&t.torn) > 0 {
+		atomic.AddInt32(&t.after, 1)
+	}
+	return t.Conn.Write(p)
+}
+
+// gmPairTorn: when set, both ends' transports are wrapped (returned through gmPairTornConns)
+var gmPairTorn bool
+var gmPairTornConns [2]*tornConn
+
 func gmPair(suite uint16) (cli, srv *gmtls.Conn, m *mitm, err error) {
 	f, err := loadFixtures()
 	if err != nil {
@@ -282,6 +313,11 @@ func gmPair(suite uint16) (cli, srv *gmtls.Conn, m *mitm, err error) {
 	scfg := gmServerConfig(f, []uint16{suite})
 	if gmPairShortRand {
 		cc.Rand, scfg.Rand = shortRand{}, shortRand{}
+	}
+	if gmPairTorn {
+		tc, ts := &tornConn{Conn: ce}, &tornConn{Conn: se}
+		gmPairTornConns = [2]*tornConn{tc, ts}
+		ce, se = tc, ts
 	}
 	cli = gmtls.Client(ce, cc)
 	srv = gmtls.Server(se, scfg)
